@@ -3,12 +3,12 @@
 (* logs PeerSend before it hands a packet over and PeerSaw when a client packet has arrived; the      *)
 (* client logs NewChan / Recv after the call returned.                                               *)
 EXTENDS TraceBase
-VARIABLES l, ids, inflight, nr, unknown
-vars == <<l, ids, inflight, nr, unknown>>
+VARIABLES l, ids, inflight, nr, unknown, closed
+vars == <<l, ids, inflight, nr, unknown, closed>>
 E == Trace[l]
 IsEvent(e) == l <= Len(Trace) /\ Trace[l].ev = e /\ l' = l + 1
-Init == l = 1 /\ ids = {} /\ inflight = << >> /\ nr = << >> /\ unknown = 0 /\ HWInit
-T_Reset == IsEvent("Reset") /\ ids' = {} /\ inflight' = << >> /\ nr' = << >> /\ unknown' = 0
+Init == l = 1 /\ ids = {} /\ inflight = << >> /\ nr = << >> /\ unknown = 0 /\ closed = {} /\ HWInit
+T_Reset == IsEvent("Reset") /\ ids' = {} /\ inflight' = << >> /\ nr' = << >> /\ unknown' = 0 /\ closed' = {}
 
 \* setting up a logical channel succeeds when the server acknowledges it; every channel a distinct id
 T_NewChan == /\ IsEvent("NewChan")
@@ -16,7 +16,7 @@ T_NewChan == /\ IsEvent("NewChan")
              /\ E.id \notin ids
              /\ (E.g > 0 => E.id > 0)
              /\ ids' = ids \cup {E.id}
-             /\ UNCHANGED <<inflight, nr, unknown>>
+             /\ UNCHANGED <<inflight, nr, unknown, closed>>
 Q(c) == IF c \in DOMAIN inflight THEN inflight[c] ELSE <<>>
 Put(c, q) == [x \in DOMAIN inflight \cup {c} |-> IF x = c THEN q ELSE inflight[x]]
 \* outgoing packets carry their channel's id with consecutive packet numbers
@@ -25,19 +25,19 @@ T_PeerSaw == /\ IsEvent("PeerSaw")
                 THEN /\ E.nr = (IF E.chan \in DOMAIN nr THEN nr[E.chan] ELSE 0)
                      /\ nr' = [x \in DOMAIN nr \cup {E.chan} |-> IF x = E.chan THEN (E.nr + 1) % 256 ELSE nr[x]]
                 ELSE UNCHANGED nr
-             /\ UNCHANGED <<ids, inflight, unknown>>
+             /\ UNCHANGED <<ids, inflight, unknown, closed>>
 T_PeerSend == /\ IsEvent("PeerSend") /\ inflight' = Put(E.chan, Append(Q(E.chan), E.val))
-              /\ UNCHANGED <<ids, nr, unknown>>
+              /\ UNCHANGED <<ids, nr, unknown, closed>>
 \* each package is delivered to exactly the channel named in its packet header, in the order sent
 T_Recv == /\ IsEvent("Recv") /\ Q(E.chan) # <<>> /\ Head(Q(E.chan)) = E.val
           /\ inflight' = Put(E.chan, Tail(Q(E.chan)))
-          /\ UNCHANGED <<ids, nr, unknown>>
-T_Closed == IsEvent("Closed") /\ UNCHANGED <<ids, inflight, nr, unknown>>
-T_Unknown == IsEvent("PeerSendUnknown") /\ E.chan \notin ids /\ unknown' = unknown + 1 /\ UNCHANGED <<ids, inflight, nr>>
+          /\ UNCHANGED <<ids, nr, unknown, closed>>
+T_Closed == IsEvent("Closed") /\ closed' = closed \cup {E.chan} /\ UNCHANGED <<ids, inflight, nr, unknown>>
+T_Unknown == IsEvent("PeerSendUnknown") /\ (E.chan \notin ids \/ E.chan \in closed) /\ unknown' = unknown + 1 /\ UNCHANGED <<ids, inflight, nr, closed>>
 \* packets for a channel that does not exist: a connection error each, otherwise ignored
 T_ConnErrs == /\ IsEvent("ConnErrs") /\ E.n = unknown /\ E.unknown = unknown
               /\ \A c \in DOMAIN inflight : inflight[c] = <<>>          \* and everything sent was received
-              /\ UNCHANGED <<ids, inflight, nr, unknown>>
+              /\ UNCHANGED <<ids, inflight, nr, unknown, closed>>
 Next == T_Reset \/ T_NewChan \/ T_PeerSaw \/ T_PeerSend \/ T_Recv \/ T_Closed \/ T_Unknown \/ T_ConnErrs
 Spec == Init /\ [][Next]_vars
 HW == HWOf(l)
